@@ -1,5 +1,6 @@
 import PhysisModel.Model.Fiin
 import PhysisModel.Base.BytesLemmas
+import PhysisModel.Proofs.Utf8Lossy
 /-!
 FIIN: the binrw writer produces the documented layout; the reader inverts it on well-formed
 tables; `FileInfo::new` yields base name, size and digest of every file.
@@ -106,7 +107,7 @@ theorem readEntry_encode (e : Entry) (rest : Bytes) (h : WFEntry e = true) :
   rw [hd, takeN_append 64 _ _ (padTo_length 64 _ hn)]
   simp only
   have hv : utf8Valid (padTo 64 e.fileName) = true := utf8Valid_pad _ _ hu
-  simp only [hv, Bool.not_true, Bool.false_eq_true, ↓reduceIte]
+  simp only [Proofs.Utf8Lossy.fromUtf8Lossy_valid _ hv]
   rw [takeN_append 24 _ _ (padTo_length 24 _ hs)]
   simp only [padTo, zeros_eq, trimNul_pad _ _ hh hl, normEntry]
 
